@@ -132,6 +132,10 @@ struct BlendRowMask;
 
 fn blend_row_mask<T: blend::Blend>(src: &[u32], mask: &[u8], dst: &mut [u32]) {
     for ((dst, src), mask) in dst.iter_mut().zip(src).zip(mask) {
+        // alpha_to_alpha256(0) is 1, not 0: zero coverage must leave the pixel alone
+        if *mask == 0 {
+            continue;
+        }
         *dst = lerp(
             *dst,
             T::blend(*src, *dst),
